@@ -33,11 +33,14 @@ LOOKALIKE = ["1", "-3", "+5", " 7 ", "1_000", "0x10", "1e3", "1E-2", "nan", "NaN
              "True", "None", "0b1", "1j", "١٫٥", "1__0", "_1", "1_", "\t8\t", "4\n", " 3 ", "1 000", "²"]
 BLANKS = ["", " ", "  ", "\t", "\xa0", "\u3000", " \n ", "\r\n"]
 QUOTED = ["a,b", "x;y", "p|q", "a\tb", 'he said "hi"', '"', '""', "l1\nl2", "l1\r\nl2", "a\rb", ",", "'1'", 'a"b,c\nd', " x ",
-          "\"1\"", "a b"]
+          "\"1\"", "a b",
+          # a backslash is an ordinary character of the dialect (no escapechar): verbatim, also before a delimiter, a quote, a digit
+          "C:\\temp\\new", "a\\", "\\1", "q\\\"", "\\,x", "\\"]
 UNICODE = ["é", "日本", "ß", "İ", "naïve café", "Ωmega", "\u200bz", "a\u0301"]
 PLAIN = ["a", "b", "x", "abc", "A"]
 POOL = LOOKALIKE + BLANKS + QUOTED + UNICODE + PLAIN
-HEADERS = ["a", "b", "a", "", " ", "x y", "1", "sum", "A", "é", "a,b", "l1\nl2", '"q"', "col_0", "None", " a ", "日本", "name", "len"]
+HEADERS = ["a", "b", "a", "", " ", "x y", "1", "sum", "A", "é", "a,b", "l1\nl2", '"q"', "col_0", "None", " a ", "日本", "name", "len",
+           "dom\\user", "tail\\"]
 
 _TMP = {"dir": None}
 
@@ -126,7 +129,7 @@ def generate(rng, tier):
         yield {"fam": "read", "gen": "random", "delim": rng.choice(DELIMS), "hh": hh, "src": rng.choice(SOURCES),
                "records": recs, "quoting": 0, "lt": rng.choice(["\r\n", "\n"])}
     # 6. random raw soup with every delimiter (malformed stream: stray quotes, mixed line ends)
-    soup = ["a", "1", " ", '"', "\n", "\r\n", "\r", "é", "5.", "x y"]
+    soup = ["a", "1", " ", '"', "\n", "\r\n", "\r", "é", "5.", "x y", "\\", "\t", "\x0c", "\u2028"]
     for _ in range(2000 if not thorough else 40000):
         d = rng.choice(DELIMS)
         text = "".join(rng.choice(soup + [d, d]) for _ in range(rng.randint(1, 24)))
